@@ -385,3 +385,14 @@ def r4(ctx):
 def r5(ctx):
     from rules import c01
     c01.r1(ctx)
+
+
+@rule('C17', 'R-C17-6', 'T11 SIBLING (one segmentation)',
+      'every CharString::new of the token groups code receives the caller\'s grapheme flag unchanged (a parameter, configuration field or '
+      'captured variable): a site that "optimises" the flag (e.g. `use_graphemes && !s.is_ascii()`) segments "\\r\\n" and friends '
+      'differently from the sites it must agree with')
+def r_segflag(ctx):
+    from rules.common import check_segmentation_flag
+    n = check_segmentation_flag(ctx, [body_for(ctx, T + 'BaseTokenizer::process_input', BYTE)], 'token groups')
+    if n == 0:
+        raise AnchorMissing('CharString::new sites of the token groups code')
